@@ -123,3 +123,102 @@ Print Assumptions C03_flex_loop_terminates.
 Print Assumptions C03_fr_search_terminates.
 Print Assumptions C03_maximise_distribution_terminates.
 Print Assumptions C03_index_errors.
+
+(* ------------------------------------------------------------------------------------------------------------------
+   Fuel sufficiency of the sizing loops the grid / flex resumptions call (Model/GridAlg.v, Model/FlexAlg.v): with the FUEL
+   EXPRESSION THE MODEL PASSES the loop has reached its exit test, and any additional fuel leaves the result unchanged.  The
+   model's fuel exhaustion is its stand-in for a hang; an exhausted loop returns a normal-looking value, so these statements are
+   what excludes "the model silently stopped early".  Table of all fuelled loops: notes/FUEL.md.
+   Structurally counted loops: any `Num` instance, no premise.  `peq` (Model/FuelDefs.v): the same program of tree calls with the
+   same results (Leibniz equality up to extensionality of the continuations). *)
+From TV Require Model.Types Model.PlacementBase Model.GridAlgBase Model.GridIntrinsic Model.GridAlg Model.FuelDefs Proofs.GridIntrinsicProofs
+                Proofs.FuelProofs Proofs.FuelNumProofs.
+
+(* resolve_intrinsic_track_sizes of the resumption: `m_batch_loop (S (length items)) ffs 0 sorted tracks` (Model/GridAlg.v m_resolve_intrinsic) *)
+Theorem C03_m_batch_loop_fuel_suffices :
+  forall (T : Type) (H : TV.Num.Num.Num T) (ax : TV.Model.GridAlgBase.GAxis) (inner : TV.Model.Types.Size (option T))
+         (avail : TV.Model.GridTracks.avail_space T) (fp : bool) (ot : list (TV.Model.GridTracks.track T)) (oa ffs : T)
+         (items : list (@TV.Model.GridAlg.GItem T)) (tracks : list (TV.Model.GridTracks.track T)) (extra : nat),
+    let sorted := TV.Model.GridAlg.sort_by (fun a b => TV.Model.GridIntrinsic.item_lt (TV.Model.GridAlg.view ax a) (TV.Model.GridAlg.view ax b)) items in
+    TV.Model.FuelDefs.peq
+      (TV.Model.GridAlg.m_batch_loop ax inner avail fp ot oa (S (length items) + extra) ffs 0 sorted tracks)
+      (TV.Model.GridAlg.m_batch_loop ax inner avail fp ot oa (S (length items)) ffs 0 sorted tracks).
+Proof. intros. apply TV.Proofs.FuelProofs.m_batch_loop_fuel_suffices. Qed.
+
+(* ... from any offset, any item vector: length items - offset + 1 rounds are enough *)
+Theorem C03_m_batch_loop_any_fuel :
+  forall (T : Type) (H : TV.Num.Num.Num T) (ax : TV.Model.GridAlgBase.GAxis) (inner : TV.Model.Types.Size (option T))
+         (avail : TV.Model.GridTracks.avail_space T) (fp : bool) (ot : list (TV.Model.GridTracks.track T)) (oa ffs : T)
+         (f1 f2 off : nat) (items : list (@TV.Model.GridAlg.GItem T)) (tracks : list (TV.Model.GridTracks.track T)),
+    (length items - off < f1)%nat -> (length items - off < f2)%nat ->
+    TV.Model.FuelDefs.peq
+      (TV.Model.GridAlg.m_batch_loop ax inner avail fp ot oa f1 ffs off items tracks)
+      (TV.Model.GridAlg.m_batch_loop ax inner avail fp ot oa f2 ffs off items tracks).
+Proof. intros. apply TV.Proofs.FuelProofs.m_batch_loop_any_fuel; assumption. Qed.
+
+(* resolve_item_baselines of the resumption: `m_baseline_rows (length sorted) inner sorted` *)
+Theorem C03_m_baseline_rows_fuel_suffices :
+  forall (T : Type) (H : TV.Num.Num.Num T) (inner : TV.Model.Types.Size (option T)) (items : list (@TV.Model.GridAlg.GItem T)) (extra : nat),
+    let sorted := TV.Model.GridAlg.sort_by
+                    (fun a b => Z.ltb (TV.Model.PlacementBase.l_start (TV.Model.GridAlgBase.get_ax (TV.Model.GridAlg.g_line a) TV.Model.GridAlgBase.Block))
+                                      (TV.Model.PlacementBase.l_start (TV.Model.GridAlgBase.get_ax (TV.Model.GridAlg.g_line b) TV.Model.GridAlgBase.Block))) items in
+    TV.Model.FuelDefs.peq (TV.Model.GridAlg.m_baseline_rows (length sorted + extra) inner sorted)
+                          (TV.Model.GridAlg.m_baseline_rows (length sorted) inner sorted).
+Proof. intros. apply TV.Proofs.FuelProofs.m_baseline_rows_fuel_suffices. Qed.
+
+(* the kernel's batch loop (Model/GridIntrinsic.v resolve_intrinsic_track_sizes, fuel intrinsic_fuel items = S (length items));
+   = C09_intrinsic_terminates, restated here so that the list of fuelled loops is in one place *)
+Theorem C03_batch_loop_fuel_suffices :
+  forall (T : Type) (H : TV.Num.Num.Num T) contrib inner avail (items : list (TV.Model.GridIntrinsic.item T)) tracks extra,
+    TV.Model.GridIntrinsic.resolve_intrinsic_fuelled contrib inner avail (TV.Model.GridIntrinsic.intrinsic_fuel items + extra) items tracks
+    = TV.Model.GridIntrinsic.resolve_intrinsic_track_sizes contrib inner avail items tracks.
+Proof. intros. apply TV.Proofs.GridIntrinsicProofs.intrinsic_terminates. Qed.
+
+(* a fuelled loop whose result passes its own exit test is unchanged by more fuel: any `Num` *)
+Theorem C03_distribute_loop_exit_is_stable :
+  forall (T : Type) (H : TV.Num.Num.Num T) (aff : TV.Model.GridTracks.track T -> bool) (p pr lim : TV.Model.GridTracks.track T -> T)
+         fuel extra space tracks,
+    (let r := TV.Model.GridTracks.distribute_loop aff p pr lim fuel space tracks in
+     TV.Model.GridTracks.distribute_step aff p pr lim (fst r) (snd r) = None) ->
+    TV.Model.GridTracks.distribute_loop aff p pr lim (fuel + extra) space tracks = TV.Model.GridTracks.distribute_loop aff p pr lim fuel space tracks.
+Proof. intros. apply TV.Proofs.FuelNumProofs.distribute_loop_stable. assumption. Qed.
+
+(* numerically counted loops: exact instance XQ, on the stated classes *)
+
+(* find_size_of_fr: finite tracks with base size >= 0 and flex factor >= 0 (track_ok2), finite space *)
+Theorem C03_fr_loop_fuel_suffices :
+  forall (tracks : list (TV.Model.GridTracks.track TV.Num.QNum.XQ)) (sp : QArith_base.Q),
+    Forall TV.Proofs.GridTracksProofs.track_ok2 tracks ->
+    snd (TV.Model.GridTracks.fr_exit tracks (TV.Num.QNum.Fin sp)) = true /\
+    forall extra, TV.Model.GridTracks.fr_loop (TV.Model.GridTracks.fr_fuel tracks + extra) tracks (TV.Num.QNum.Fin sp) TV.Num.Num.infinity
+                  = TV.Model.GridTracks.fr_exit tracks (TV.Num.QNum.Fin sp).
+Proof. exact TV.Proofs.FuelNumProofs.fr_loop_fuel_suffices. Qed.
+
+(* distribute_space_up_to_limits as maximise_tracks (11.6) calls it: base size, fit-content-limited growth limit and incurred
+   increase finite, incurred >= 0 (tok), finite space *)
+Theorem C03_maximise_distribute_fuel_suffices :
+  forall (inner : option TV.Num.QNum.XQ) (sp : QArith_base.Q) (tracks : list (TV.Model.GridTracks.track TV.Num.QNum.XQ)),
+    Forall (TV.Proofs.GridTracksProofs.tok inner) tracks ->
+    let lim := TV.Model.GridTracks.fit_content_limited_growth_limit inner in
+    let r := TV.Model.GridTracks.distribute_space_up_to_limits (TV.Num.QNum.Fin sp) tracks (fun _ => true) (fun _ => TV.Num.Num.one)
+               TV.Model.GridTracks.base_size lim in
+    TV.Model.GridTracks.distribute_step (fun _ => true) (fun _ => TV.Num.Num.one) TV.Model.GridTracks.base_size lim (fst r) (snd r) = None /\
+    forall extra, TV.Model.GridTracks.distribute_loop (fun _ => true) (fun _ => TV.Num.Num.one) TV.Model.GridTracks.base_size lim
+                    (TV.Model.GridTracks.distribute_fuel tracks + extra) (TV.Num.QNum.Fin sp) tracks = r.
+Proof. exact TV.Proofs.FuelNumProofs.maximise_distribute_fuel_suffices. Qed.
+
+(* flex_loop as resolve_flexible_lengths calls it (fuel S (length items)): any context, any items, NaN and infinities included *)
+Theorem C03_flex_loop_fuel_suffices :
+  forall (k : TV.Model.Flex.LoopCtx TV.Num.QNum.XQ) (items : list (TV.Model.Flex.FlexItem TV.Num.QNum.XQ)),
+    exists res, TV.Model.Flex.flex_loop (S (length items)) k items = Some res /\
+                forall extra, TV.Model.Flex.flex_loop (S (length items) + extra) k items = Some res.
+Proof. exact TV.Proofs.FuelNumProofs.flex_loop_fuel_suffices. Qed.
+
+Print Assumptions C03_m_batch_loop_fuel_suffices.
+Print Assumptions C03_m_batch_loop_any_fuel.
+Print Assumptions C03_m_baseline_rows_fuel_suffices.
+Print Assumptions C03_batch_loop_fuel_suffices.
+Print Assumptions C03_distribute_loop_exit_is_stable.
+Print Assumptions C03_fr_loop_fuel_suffices.
+Print Assumptions C03_maximise_distribute_fuel_suffices.
+Print Assumptions C03_flex_loop_fuel_suffices.
